@@ -129,6 +129,9 @@ def run(ctx):
                     obs = admincmd.run_admin("onboard", kind, opt, ["yes", ""], typed, seed, device=d,
                                              through_unlock=True)
                     account(res, dist, "onboard+unlock", obs)
+                    terms.append(admincmd.to_dcase("onboard+unlock", kind, opt, ["yes", ""], typed, seed, None, obs))
+                    descs.append({"cmd": "onboard+unlock", "state": [kind, post, pin_kind],
+                                  "outcome": obs["outcome"], "error": obs["error"]})
                     apdus = [e[1] for e in obs["trace"] if e[0] == "A"]
                     wipe_at = next((i for i, a in enumerate(apdus) if a[1] == 0x07), None)
                     if wipe_at is None:
